@@ -55,8 +55,8 @@ Print Assumptions gramcd_history.
 
 Require Import SK.Skel.AndersonCD SK.Skel.GroupBCD SK.Skel.GroupBCDProofs.
 Theorem groupbcd_history :
-  forall {F} `{Num F} {A} (cfg : @config F) (K : @kernels F A) w_init Xw_init out,
-  bsolve cfg K w_init Xw_init = Ok out ->
+  forall {F} `{Num F} {A} (cfg : @config F) (K : @kernels F A) (ng : nat) w_init Xw_init out,
+  bsolve cfg K ng w_init Xw_init = Ok out ->
   length (g_obj out) = g_iters out /\ (g_iters out <= max_iter cfg)%nat /\
   (g_obj out = nil \/ bobjective cfg K (g_s out) = Ok (last (g_obj out) PInf)).
 Proof. intros F H A. exact (@bsolve_history F H A). Qed.
